@@ -52,8 +52,13 @@ def _build(case):
     from txdbus import objects as O
     ifs = {}
     for spec in case['ifaces']:
-        props = [I.Property(p['name'], p['sig'], p['r'], p['w'], {'true': True, 'false': False}.get(p['emits'], 'invalidates'))
-                 for p in spec['props']]
+        props = []
+        for p in spec['props']:
+            if p['r'] and not p['w'] and p['emits'] == 'true' and len(p['name']) % 2:
+                props.append(I.Property(p['name'], p['sig']))      # the documented defaults: readable, not writeable, emits
+            else:
+                props.append(I.Property(p['name'], p['sig'], p['r'], p['w'],
+                                        {'true': True, 'false': False}.get(p['emits'], 'invalidates')))
         ifs[spec['name']] = I.DBusInterface(spec['name'], *props, noRegister=True)
     base_ns = {'dbusInterfaces': [ifs[s['name']] for s in case['ifaces'] if s['level'] == 0]}
     sub_ns = {}
